@@ -78,9 +78,9 @@ def six_assume(a, ps, tier):
     kinds = (0, 1) if tier == 'quick' else (0, 1, 3)
     last = (0, 1, 3, 4, 7, 8)          # incl. pointer chains whose levels differ in mutability
     A = [a[0] == ps, a[1] >= 0, z3.ULE(a[2], 2), z3.UGE(a[3], 4), z3.ULE(a[3], 6), z3.Or(z3.ULE(a[10], 2 if tier == 'quick' else 4), a[10] == 8, a[10] == 9), z3.ULE(a[11], 3), z3.ULE(a[12], 1)]
-    if tier == 'quick':
-        A.append(z3.Implies(a[11] != 0, a[10] == 0))     # parameter names vary with no return type only
-        A.append(z3.Implies(a[12] != 0, z3.And(a[11] == 0, a[3] == 4)))     # packed owner: four parameters, default names
+    # both tiers (the free product of names x packed x return types is 6 * 10^5 leaves in the thorough tier):
+    A.append(z3.Implies(a[11] != 0, a[10] == 0))     # parameter names vary with no return type only
+    A.append(z3.Implies(a[12] != 0, z3.And(a[11] == 0, a[3] == 4)))     # packed owner: four parameters, default names
     for j in range(6):
         A.append(z3.Or(*[a[4 + j] == k for k in (last if j == 5 else kinds)]))
         A.append(z3.Implies(z3.ULE(a[3], j), a[4 + j] == 0))
